@@ -239,8 +239,12 @@ def preprocess_declarations(base_url, declarations, prelude=None):
 
         important = declaration.important
         for long_name, value in result:
-            if prelude is not None:
-                declaration = (long_name.replace('-', '_'), value, important)
-                yield selectors, declaration
+            if long_name.startswith('--'):
+                # Custom properties keep their exact name.
+                key = f'__{long_name[2:]}'
             else:
-                yield long_name.replace('-', '_'), value, important
+                key = long_name.replace('-', '_')
+            if prelude is not None:
+                yield selectors, (key, value, important)
+            else:
+                yield key, value, important
